@@ -1397,6 +1397,15 @@ class CSemantics:
         """
         if expr.typ.is_promotable:
             expr = self.coerce(expr, self.int_type)
+        elif (
+            isinstance(expr, expressions.FieldSelect)
+            and expr.field.is_bitfield
+            and expr.typ.is_integer
+        ):
+            # A bit-field narrower than int can be represented by int:
+            int_bits = self.context.sizeof(self.int_type) * 8
+            if self.eval_expr(expr.field.bitsize) < int_bits:
+                expr = self.coerce(expr, self.int_type)
         return expr
 
     def equal_types(self, typ1, typ2):
